@@ -299,6 +299,10 @@ pub struct PubCase {
     /// 3 = a closure that writes what fits and reports the length it needs, 4 = a closure that scribbles and fails
     #[serde(default)]
     pub payload_kind: u8,
+    /// the CONNACK declares every optional capability unavailable (Retain Available, Wildcard / Shared Subscription
+    /// Available, Subscription Identifiers Available = 0) and Maximum QoS 2 explicitly... 1 = those flags, 2 = flags = 1
+    #[serde(default)]
+    pub ca_flags: u8,
     /// Some(n): instead of the property-set table, one Content Type property of n bytes (property-block length boundaries)
     #[serde(default)]
     pub prop_str_len: Option<usize>,
@@ -386,7 +390,12 @@ pub fn eval_pub(c: &PubCase) -> CaseOut {
         let spec = Spec::plain(64, c.tx);
         let mut viol = Vec::new();
         let out = with_session(&spec, |bench, s| {
-            let ca = connack(false, c.max_packet.map(|m| vec![p(0x27, PVal::U32(m))]).unwrap_or_default());
+            let mut ca_props = c.max_packet.map(|m| vec![p(0x27, PVal::U32(m))]).unwrap_or_default();
+            if c.ca_flags != 0 {
+                let v = c.ca_flags - 1;
+                ca_props.extend([p(0x25, PVal::Byte(v)), p(0x28, PVal::Byte(v)), p(0x29, PVal::Byte(v)), p(0x2A, PVal::Byte(v)), p(0x22, PVal::U16(0))]);
+            }
+            let ca = connack(false, ca_props);
             let Conn::Ok(mut conn, id) = connect(bench, s, &ca) else { return None };
             let before = bench.written(id).len();
             let props = props_of(&props_ref);
@@ -554,7 +563,8 @@ pub fn eval_pub(c: &PubCase) -> CaseOut {
                 if !alive && !matches!(e, Res::Transport | Res::Disconnected) {
                     flag(&mut viol, "error-kills-handle", &format!("publish-{:?}", e), format!("local failure {:?} closed the handle", e));
                 }
-                let acceptable = matches!(e, Res::BufferTooSmall | Res::Payload | Res::PacketTooLarge | Res::InvalidRequest);
+                // (a client may refuse to use a capability the broker has declared unavailable: any clean refusal will do)
+                let acceptable = matches!(e, Res::BufferTooSmall | Res::Payload | Res::PacketTooLarge | Res::InvalidRequest) || (c.ca_flags == 1 && c.retain);
                 if e == Res::BufferTooSmall && legal_request {
                     // "too little buffer" only when the idle transmit buffer cannot hold the packet plus the
                     // serializer's fixed-header reserve (at most 4 bytes more than the packet itself)
@@ -569,7 +579,7 @@ pub fn eval_pub(c: &PubCase) -> CaseOut {
                 if !acceptable {
                     flag(&mut viol, "unexpected-error", &format!("publish-{:?}", e), format!("{:?} for {:?}", e, c));
                 }
-                if e == Res::InvalidRequest && legal_request {
+                if e == Res::InvalidRequest && legal_request && !(c.ca_flags == 1 && c.retain) {
                     flag(&mut viol, "valid-refused", "publish", format!("legal request refused as invalid: {:?}", c));
                 }
             }
@@ -581,7 +591,7 @@ pub fn eval_pub(c: &PubCase) -> CaseOut {
 fn pub_cases(tier: Tier) -> Vec<PubCase> {
     let mut v = Vec::new();
     let nsets = pub_prop_sets().len();
-    let base = PubCase { tx: 512, topic_len: 1, payload_len: 2, qos: 0, retain: false, props: 0, correlate: None, max_packet: None, correlate_first: false, topic_kind: 0, payload_kind: 0, prop_str_len: None, order: 0, mb: None };
+    let base = PubCase { tx: 512, topic_len: 1, payload_len: 2, qos: 0, retain: false, props: 0, correlate: None, max_packet: None, correlate_first: false, topic_kind: 0, payload_kind: 0, ca_flags: 0, prop_str_len: None, order: 0, mb: None };
     // flags x property sets x correlate
     for qos in 0..3u8 {
         for retain in [false, true] {
@@ -680,6 +690,19 @@ fn pub_cases(tier: Tier) -> Vec<PubCase> {
                         continue;
                     }
                     v.push(PubCase { tx, qos, payload_len, payload_kind, ..base.clone() });
+                }
+            }
+        }
+    }
+    // the broker declares its optional capabilities (Retain Available, ...) unavailable, or available, in the CONNACK:
+    // what is sent is what was asked for
+    for ca_flags in [1u8, 2] {
+        for qos in 0..3u8 {
+            for retain in [false, true] {
+                for payload_kind in 0..3u8 {
+                    for props in [0usize, 11] {
+                        v.push(PubCase { qos, retain, payload_kind, props, ca_flags, ..base.clone() });
+                    }
                 }
             }
         }
